@@ -382,15 +382,6 @@ Lemma name_eqb_refl a : name_eqb a a = true. Proof. apply name_eqb_eq. reflexivi
 Lemma name_eqb_neq a b : name_eqb a b = false <-> a <> b.
 Proof. rewrite <- name_eqb_eq. destruct (name_eqb a b); split; congruence. Qed.
 
-Lemma In_init_put l key v k' x : In (k', x) (init_put l key v) <-> (k' = key /\ x = v) \/ (k' <> key /\ In (k', x) l).
-Proof.
-  induction l as [|[k0 v0] t IH]; simpl.
-  - split; [intros [[= <- <-]|[]]; auto | intros [[-> ->]|[_ []]]; auto].
-  - destruct (name_eqb key k0) eqn:E.
-    + apply name_eqb_eq in E. subst k0. simpl. split.
-      * intros [[= <- <-]|H]; [auto|]. right.
-Abort.
-
 Lemma keys_functional (l : list (name * nat)) k x y : NoDup (map fst l) -> In (k, x) l -> In (k, y) l -> x = y.
 Proof.
   induction l as [|[k0 v0] t IH]; simpl; [tauto|]. intros Hnd Hx Hy. inversion Hnd; subst.
@@ -512,10 +503,10 @@ Proof.
       + subst x. destruct Hx; [auto|discriminate].
       + assumption. }
   fold s1. rewrite Hown1. destruct (flag KIn s v || flag KOut s v) eqn:Eo.
-  - apply Hfin; intros; unfold s1; autorewrite with rd; try reflexivity. rewrite Eo. assumption.
+  - apply Hfin; intros; unfold s1; autorewrite with rd; try reflexivity. exact Hvg.
   - apply Hfin; intros; unfold s1; autorewrite with rd; try reflexivity.
     + destruct (Nat.eqb_spec v y); [congruence|reflexivity].
-    + rewrite Nat.eqb_refl, Eo. reflexivity.
+    + rewrite Nat.eqb_refl. reflexivity.
 Qed.
 
 Lemma InvD_init_delitem hpf s g key : InvD hpf s -> InvD hpf (fst (init_delitem s g key)).
@@ -565,3 +556,103 @@ Lemma set_inits_set_inits s g l1 l2 : set_inits (set_inits s g l1) g l2 = set_in
 Proof. unfold set_inits; simpl; rewrite sset_sset; reflexivity. Qed.
 Lemma init_own_set_inits s g v g' l : init_own (set_inits s g' l) g v = set_inits (init_own s g v) g' l.
 Proof. reflexivity. Qed.
+
+Lemma name_blank_not_init hpf s v : InvD hpf s -> name_blank (vname s v) = true -> vinit s v = false.
+Proof.
+  intros HD Hb. destruct (vinit s v) eqn:E; [|reflexivity]. exfalso.
+  destruct HD as (_ & _ & (H5a & _ & H5c) & _). destruct (H5c v E) as (g & key & Hin).
+  destruct (H5a _ _ _ Hin) as (Hn & _ & _ & Hk). rewrite Hn in Hb. destruct key; simpl in Hb; congruence.
+Qed.
+
+Lemma InvD_init_setitem hpf s g key v : InvD hpf s -> InvD hpf (fst (init_setitem all_fixed s hpf g key v)).
+Proof.
+  intros HD. unfold init_setitem. destruct (name_eqb key NEmpty) eqn:Ek; [assumption|]. apply name_eqb_neq in Ek.
+  destruct (negb (name_blank (vname s v)) && negb (oname_eqb (vname s v) (Some key))) eqn:En; [assumption|].
+  destruct (hpf v || negb (gcheck s g v)) eqn:Ebad; cbn [all_fixed andb]; [assumption|].
+  apply orb_false_iff in Ebad. destruct Ebad as [Hp Hg]. apply negb_false_iff in Hg.
+  set (s1 := if name_blank (vname s v) then set_vname s v (Some key) else s).
+  assert (HD1 : InvD hpf s1).
+  { unfold s1. destruct (name_blank (vname s v)) eqn:Eb; [|assumption].
+    apply InvD_set_vname; [assumption|]. eapply name_blank_not_init; eassumption. }
+  assert (Hn1 : vname s1 v = Some key).
+  { unfold s1. destruct (name_blank (vname s v)) eqn:Eb; [autorewrite with rd; rewrite Nat.eqb_refl; reflexivity|].
+    simpl in En. unfold oname_eqb, option_eqb in En. destruct (vname s v) as [nm|]; [|discriminate].
+    apply negb_false_iff in En. apply name_eqb_eq in En. congruence. }
+  assert (Hg1 : gcheck s1 g v = true).
+  { unfold s1. destruct (name_blank _); [|assumption]. unfold gcheck. autorewrite with rd. exact Hg. }
+  assert (Hi1 : forall g0, inits s1 g0 = inits s g0).
+  { intros g0. unfold s1. destruct (name_blank _); [autorewrite with rd|]; reflexivity. }
+  rewrite Hp. fold s1. pose proof HD1 as (_ & _ & (H5a & H5b & H5c) & _).
+  unfold init_disown_old. destruct (init_get (inits s1 g) key) as [o|] eqn:Eo.
+  - (* replaces an existing entry *)
+    pose proof (init_get_In _ _ _ Eo) as Hin.
+    set (s2 := set_inits (init_disown s1 o) g (init_del (inits s1 g) key)).
+    assert (HD2 : InvD hpf s2) by (apply InvD_init_unbind; assumption).
+    assert (Hg2 : gcheck (init_disown s1 o) g v = true).
+    { unfold gcheck. destruct (vgraph_init_disown s1 o v) as [-> | ->]; [exact Hg1|reflexivity]. }
+    rewrite Hg2. cbn [negb fst K].
+    assert (Hgs2 : gcheck s2 g v = true) by (unfold s2, gcheck; autorewrite with rd; exact Hg2).
+    assert (Hn2 : vname s2 v = Some key).
+    { unfold s2, init_disown, maybe_release. destruct (owned _ _); autorewrite with rd; exact Hn1. }
+    assert (Hv2 : vinit s2 v = false).
+    { destruct (vinit s2 v) eqn:E; [|reflexivity]. exfalso. pose proof HD2 as (_ & _ & (Ha & _ & Hc) & _).
+      destruct (Hc v E) as (g0 & k0 & Hx). destruct (Ha _ _ _ Hx) as (A & _ & C & _).
+      assert (k0 = key) by congruence. subst k0.
+      assert (g0 = g). { unfold gcheck in Hgs2. rewrite C in Hgs2. apply Nat.eqb_eq in Hgs2. congruence. } subst g0.
+      unfold s2 in Hx. autorewrite with rd in Hx. rewrite Nat.eqb_refl in Hx. apply In_init_del in Hx. tauto. }
+    assert (Hi2 : inits (init_disown s1 o) g = inits s1 g).
+    { unfold init_disown, maybe_release. destruct (owned _ _); autorewrite with rd; reflexivity. }
+    rewrite Hi2. destruct (init_put_spec (inits s1 g) key v (H5b g)) as [Hpa Hpb].
+    pose proof (InvD_init_bind hpf s2 g key v (init_put (inits s1 g) key v) HD2 Hv2 Hn2 Ek Hgs2 Hp) as Hfin.
+    unfold s2 in Hfin at 2. rewrite init_own_set_inits, set_inits_set_inits in Hfin. apply Hfin; [|assumption].
+    intros k' x. rewrite Hpa. unfold s2. autorewrite with rd. rewrite Nat.eqb_refl, In_init_del. tauto.
+  - (* new key *)
+    rewrite Hg1. cbn [negb fst K].
+    assert (Hv1 : vinit s1 v = false).
+    { destruct (vinit s1 v) eqn:E; [|reflexivity]. exfalso.
+      destruct (H5c v E) as (g0 & k0 & Hx). destruct (H5a _ _ _ Hx) as (A & _ & C & _).
+      assert (k0 = key) by congruence. subst k0.
+      assert (g0 = g). { unfold gcheck in Hg1. rewrite C in Hg1. apply Nat.eqb_eq in Hg1. congruence. } subst g0.
+      apply init_get_None in Eo. apply Eo. apply (in_map fst) in Hx. exact Hx. }
+    destruct (init_put_spec (inits s1 g) key v (H5b g)) as [Hpa Hpb].
+    apply InvD_init_bind with (key := key); try assumption.
+    intros k' x. rewrite Hpa. split; [intros [H|[_ H]]; auto|].
+    intros [H|H]; [auto|]. right. split; [|assumption]. intros ->. apply init_get_None in Eo. apply Eo.
+    apply (in_map fst) in H. exact H.
+Qed.
+
+Lemma InvD_init_add hpf s g v : InvD hpf s -> InvD hpf (fst (init_add all_fixed s hpf g v)).
+Proof. intros HD. unfold init_add. destruct (vname s v); [apply InvD_init_setitem|]; assumption. Qed.
+
+Lemma InvD_init_clear_n hpf g fuel : forall s, InvD hpf s -> InvD hpf (init_clear_n s g fuel).
+Proof.
+  induction fuel as [|f IH]; intros s HD; simpl; [assumption|].
+  destruct (inits s g) as [|[k v] t]; [assumption|]. apply IH. apply InvD_init_delitem. assumption.
+Qed.
+Lemma InvD_init_clear hpf s g : InvD hpf s -> InvD hpf (fst (init_clear s g)).
+Proof. intros HD. unfold init_clear. apply InvD_init_clear_n. assumption. Qed.
+
+Lemma init_disown_set_vname s v w nm : init_disown (set_vname s w nm) v = set_vname (init_disown s v) w nm.
+Proof.
+  unfold init_disown, maybe_release, owned, flag, vinit, set_vinit, set_vname, set_vgraph; simpl.
+  match goal with |- context [if ?b then _ else _] => destruct b end; reflexivity.
+Qed.
+
+Lemma InvD_vset_name hpf s v nm : InvD hpf s -> InvD hpf (fst (vset_name all_fixed s hpf v nm)).
+Proof.
+  intros HD. unfold vset_name. destruct (oname_eqb (vname s v) nm); [assumption|].
+  destruct (vinit s v) eqn:Evi; [|apply InvD_set_vname; assumption].
+  destruct nm as [k|]; [|assumption]. destruct (vgraph s v) as [g|] eqn:Evg; [|assumption].
+  destruct (match init_get (inits s g) k with Some o => negb (o =? v) | None => false end); [assumption|].
+  destruct (name_eqb k NEmpty && all_fixed SNameEmpty); [assumption|].
+  pose proof HD as (_ & _ & (H5a & H5b & H5c) & _).
+  destruct (H5c v Evi) as (g0 & key0 & Hin). destruct (H5a _ _ _ Hin) as (Hn & _ & Hg & _).
+  assert (g0 = g) by congruence. subst g0. rewrite Hn.
+  unfold init_delitem. autorewrite with rd. rewrite (In_init_get _ _ _ (H5b g) Hin).
+  cbn [K]. rewrite init_disown_set_vname.
+  change (set_inits (set_vname (init_disown s v) v (Some k)) g (init_del (inits s g) key0))
+    with (set_vname (set_inits (init_disown s v) g (init_del (inits s g) key0)) v (Some k)).
+  apply InvD_init_setitem. apply InvD_set_vname.
+  - apply InvD_init_unbind; assumption.
+  - unfold init_disown, maybe_release. destruct (owned _ _); autorewrite with rd; rewrite Nat.eqb_refl; reflexivity.
+Qed.
